@@ -28,9 +28,13 @@ def outputs_of(r):
     if "err" in r:
         return ("rejected", r.get("stage"))
     glsl = r.get("glsl") or {}
-    return ("ok", r.get("spv") or ("ERR:" + str(r.get("spv_err"))),
-            r.get("hlsl") if "hlsl" in r else "ERR", r.get("msl") if "msl" in r else "ERR",
-            tuple(sorted((k, (v.get("text") if "text" in v else "ERR")) for k, v in glsl.items())))
+
+    def h(x):
+        # long outputs travel as {"sha256":..., "len":...} (harness option `digest`)
+        return (x.get("sha256"), x.get("len")) if isinstance(x, dict) else x
+    return ("ok", h(r.get("spv")) or ("ERR:" + str(r.get("spv_err"))),
+            h(r.get("hlsl")) if "hlsl" in r else "ERR", h(r.get("msl")) if "msl" in r else "ERR",
+            tuple(sorted((k, (h(v.get("text")) if "text" in v else "ERR")) for k, v in glsl.items())))
 
 
 def accept_class(o):
@@ -60,7 +64,7 @@ def metamorphic(ctx, tools, programs, n_edits):
         if not lex or "Error" in kinds:
             continue
         base_id = jid
-        jobs.append({"id": jid, "src": src, "want": WANT})
+        jobs.append({"id": jid, "src": src, "want": WANT, "opts": {"digest": True}})
         meta[jid] = (name, "base", src, None)
         jid += 1
         for e in range(n_edits):
@@ -90,7 +94,7 @@ def metamorphic(ctx, tools, programs, n_edits):
             else:
                 new = src.replace("\r\n", "\n").replace("\n", "\r\n")
             stats[kind] += 1
-            jobs.append({"id": jid, "src": new, "want": WANT})
+            jobs.append({"id": jid, "src": new, "want": WANT, "opts": {"digest": True}})
             meta[jid] = (name, kind, new, base_id)
             jid += 1
     # token preservation of re-layouts is decided with the implementation's own lexer
